@@ -48,6 +48,37 @@ def sweeps(out, sc, tier, label):
     return [p]
 
 
+def boundaries(out, sc, tier):
+    """the requoting and plain quoters on inputs whose output position reaches 8192*k + d (d = -4..+1) exactly where an escape,
+    a space or a non-ASCII character is written, followed by a long tail: one child process per input"""
+    jobs = []
+    for name in ("REQUOTER", "PATH_REQUOTER", "QUERY_REQUOTER", "QUOTER"):
+        for fill, unit in (("a", 1), ("\u00e9", 6)):
+            for k in (1, 2) if tier == "quick" else (1, 2, 3):
+                for d in range(-4, 2):
+                    for tok in ("%20", "%41", " ", "\u00e9"):
+                        n = (8192 * k + d) // unit
+                        if n > 0:
+                            jobs.append((name, fill, n, tok, 200 if tier == "quick" else 20000))
+
+    def one(i):
+        name, fill, n, tok, tail = jobs[i]
+        r = subprocess.run([PY, "-X", "utf8", "-m", "vlib.boundaryrun", name, fill, str(n), tok, str(tail)], env=sc.env("c"),
+                           cwd=str(sc.work), capture_output=True, text=True, timeout=600)
+        same = False
+        try:
+            same = bool(json.loads(r.stdout.strip().splitlines()[-1])["same"])
+        except Exception:  # noqa: BLE001 - no output: the child died
+            pass
+        return {"act": "boundary", "id": f"boundary-{i}", "name": name, "exit": r.returncode, "same": same,
+                "call": {"name": name, "fill": T(fill), "n": n, "tok": T(tok), "tail": tail}}
+    with cf.ThreadPoolExecutor(max_workers=14) as ex:
+        recs = list(ex.map(one, range(len(jobs))))
+    p = sc.work / "rec-boundaries.json"
+    p.write_text(json.dumps(recs))
+    return [p]
+
+
 def apalache_inductive(out, sc, tier):
     """Unbounded check of the writer's invariants with Apalache (BUF = 8192 as in the code, any output length, any number of
     runs): Init => IndInv, IndInv /\\ Next => IndInv', IndInv => each invariant.  An extra key in the evidence, not a proof
@@ -102,6 +133,7 @@ def run(out, sc, tier, seed):
             for pth in sw2:
                 (sc.work / pth.name).write_text(pth.read_text())
             validate(out, sc, "TraceUrl", "C19", [sc.work / pth.name for pth in sw2], "alloc-sweeps-asan")
+    validate(out, sc, "TraceUrl", "C19", boundaries(out, sc, tier), "8KiB-boundaries-child-per-input")
     run_harvest(out, sc, "C19")
     # the cache API is a public entry point too: TLC-generated sequences of cached calls, cache_clear(), cache_configure() with
     # every size class (0, small, None) and cache_info() after every call -- none may raise anything (C19.no_exception)
